@@ -17,7 +17,7 @@ RULE = ('program form {% name, PATH of executable, -python, $ shell line, @ SYMB
         'spaces, quotes, option-like, quoted reserved words, string / list / empty-list / path symbol references, quoted list reference, -existing-file, text until '
         'end of line, line continuation) x stdin {none, -stdin string / here-document / file / program output, `stdin =` in setup, both} x chain of program-symbol '
         'definitions (0..2 levels, each adding arguments, stdin and a transformation) x place {action to check under 4 actors, run in 4 phases, % and $ instructions, '
-        '-stdout-from, run transformer, run text matcher, run file matcher, exit-code -from} x exit code; non-trivial = something beyond the bare program name must be '
+        '-stdout-from, -stderr-from, run transformer, run text matcher, run file matcher, exit-code -from} x exit code; non-trivial = something beyond the bare program name must be '
         'passed on (arguments, stdin, symbol chain) or the exit code is non-zero; distinct by construction')
 ASSUMPTIONS = [
     'virtual children log argv / stdin / cwd at the subprocess.call seam; the real slice checks that a real process receives the same',
@@ -58,7 +58,7 @@ DEFS = ["def string S = 's v'", "def list L = l1 'l 2'", 'def list E = ', 'def p
 
 FORMS = ('percent', 'path', 'python', 'sym', 'sym2')
 STDINS = ('none', 'str', 'here', 'file', 'prog', 'setup', 'both', 'prog-ign', 'prog-err-ign', 'prog-err', 'here-odd')
-PLACES = ('act', 'setup-run', 'before-assert-run', 'assert-run', 'cleanup-run', 'setup-percent', 'stdout-from', 'run-transformer',
+PLACES = ('act', 'setup-run', 'before-assert-run', 'assert-run', 'cleanup-run', 'setup-percent', 'stdout-from', 'stderr-from', 'run-transformer',
           'run-text-matcher', 'run-file-matcher', 'exit-code-from')
 
 
@@ -107,6 +107,10 @@ def cases(tier):
                 for silent in (False, True):   # a program that fails without writing anything to stderr
                     for form in ('sym', 'percent'):
                         yield ('v', place, form, 1, 'none', code, ign, silent)
+        for ign in (False, True):
+            for sk in ('none', 'str', 'here'):
+                yield ('v', 'stderr-from', 'sym2', 1, sk, code, ign)
+                yield ('v', 'stdout-from', 'sym2', 1, sk, code, ign)
     # E: actors
     for actor in ('file', 'source', 'null'):
         for ai in (0, 3, 12, 14):
@@ -225,6 +229,11 @@ def build(place, form, al, sk, code, ign):
     elif place == 'stdout-from':
         ph['setup'].append('file from-prog.txt = -stdout-from %s%s' % (ig, P))
         ph['assert'].append('contents from-prog.txt : equals <<EOF\n%sEOF' % tout)
+        if code != 0 and not ign:
+            outcome = 'HARD_ERROR'
+    elif place == 'stderr-from':
+        ph['setup'].append('file from-prog.txt = -stderr-from %s%s' % (ig, P))
+        ph['assert'].append('contents from-prog.txt : equals <<EOF\n%sEOF' % apply_trs(trs, ERR))
         if code != 0 and not ign:
             outcome = 'HARD_ERROR'
     elif place == 'run-transformer':
@@ -461,7 +470,7 @@ def _cd(res, case, w, seam):
     text = text.replace('[setup]\n', '[setup]\ndir sub/deeper\ncd sub/deeper\n', 1)
     if place in ('run-transformer', 'run-text-matcher', 'run-file-matcher'):
         text = text.replace('model.txt :', '-rel-act sub/deeper/model.txt :')
-    if place == 'stdout-from':
+    if place in ('stdout-from', 'stderr-from'):
         text = text.replace('contents from-prog.txt', 'contents -rel-act sub/deeper/from-prog.txt')
     seam.default = {'out': OUT, 'err': ERR, 'exit': 0}
     seam.script['atc'] = {'out': 'x'}
